@@ -121,6 +121,16 @@ CLAIMED: dict[str, tuple[str, str, str, str]] = {
             "Identifier renaming is not modelled; probe files contain no multi-line strings; file-level findings "
             "do not shift; header-sensitive linters get no insertion at the top.",
             TECH),
+    "C11": ("DESIGN.md §5 C11",
+            "spec/Robust.tla enumerates fault sequences (32 fault operations x 5 seed kinds, length <=2 quick / "
+            "<=3 thorough); the harness instantiates each with bytes/positions drawn from VERIF_SEED, places the "
+            "damaged file among healthy siblings and runs Linter.lint (all rules, H1 failure tap on every "
+            "swallowed exception) plus rotating CLI commands; RobustTrace.tla judges Hang / Crash / RuleFailed / "
+            "SiblingsChanged per run.",
+            "Fault enumeration, not exhaustive model checking of byte strings: concrete bytes are pseudo-random "
+            "(recorded in the replay); hang = no result within 120 s; wall-clock dependent faults (parser "
+            "timeouts) are only reachable in the thorough tier's larger blow-ups.",
+            "TLA+ fault-sequence enumeration + fault injection into thai-lint + TLC trace validation"),
 }
 
 REASON_NOT_YET = ("no check registered yet in this build; the TLA+ technique applies (see DESIGN.md §5) "
@@ -137,6 +147,7 @@ def main() -> None:
         if p not in CLAIMED:
             continue
         ref, text, note, tech = CLAIMED[p]
+        cat = "fault_enumeration" if p == "C11" else "model_checking"
         checks.append({
             "property_id": p,
             "quick_cmd": f"./check {p} --tier quick",
@@ -144,7 +155,7 @@ def main() -> None:
             "evidence_file": f"/verif/evidence/{p}.json",
             "replay_cmd_template": f"./check {p} --replay {{path}}",
             "engine": "tlc+harness",
-            "level_claimed": {"category": "model_checking", "text": text, "design_ref": ref},
+            "level_claimed": {"category": cat, "text": text, "design_ref": ref},
             "level_note": note,
             "technique": tech,
         })
